@@ -10,8 +10,8 @@ EXTENDS UriUniverse, TLC
 CONSTANTS MaxSegs,
           AltMode      \* FALSE: the ideal specification; TRUE: with deviation Dev_NormRelPathCancelsToEmpty enabled
 
-SegAlpha == {EMPTY, DOT, DOTDOT, tA, tBC, tPct2e}
-Schemes == OptSet({tS, tT})
+SegAlpha == {EMPTY, DOT, DOTDOT, tA, tBC, tPct2e, <<46,46,46>>}
+Schemes == OptSet({tS, tT, <<115,120>>})          \* s, t, sx (a scheme that extends the base's)
 Hosts   == OptSet({<<>>, tH2})
 
 VARIABLES stage, shape, r, b, opt
